@@ -36,9 +36,14 @@ pub struct Case03 {
 }
 
 fn arb_case03() -> BoxedStrategy<Case03> {
-    (vec(any::<u32>(), 0..500), any::<u64>(), any::<u64>())
-        .prop_map(|(tape, order_seed, order_seed2)| {
-            let mut g = Gen::new(&tape, GenCfg { ill: 1, exclude: vec!["exec", "trigger", "now", "env", "parse_selection", "stringify"], ..GenCfg::default() });
+    (vec(any::<u32>(), 0..500), any::<u64>(), any::<u64>()).prop_map(|(tape, a, b)| decode_case03(&tape, a, b)).boxed()
+}
+
+/// a case from a choice tape (shared by the proptest strategy and the libFuzzer target)
+pub fn decode_case03(tape: &[u32], order_seed: u64, order_seed2: u64) -> Case03 {
+    {
+        {
+            let mut g = Gen::new(tape, GenCfg { ill: 1, exclude: vec!["exec", "trigger", "now", "env", "parse_selection", "stringify"], ..GenCfg::default() });
             let (pipe, env) = EPipe::decode(&mut g, 3, 2);
             let only_objects = g.tape.chance(1, 5);
             let unique = g.tape.chance(1, 3);
@@ -74,8 +79,8 @@ fn arb_case03() -> BoxedStrategy<Case03> {
                 }
             }
             Case03 { pipe, only_objects, unique, sorts, skip, take, group, group_key, inputs, order_seed, order_seed2 }
-        })
-        .boxed()
+        }
+    }
 }
 
 impl Case03 {
